@@ -255,7 +255,11 @@ func (d *Driver) Close() error {
 		d.Transport.Args.Port,
 	)
 
+	verifYield("NC_done")
+
 	d.done <- true
+
+	verifYield("NC_wait")
 
 	err := d.Channel.Close()
 	if err != nil {
